@@ -49,7 +49,7 @@ def _case(draw):
         J = build("svd", m, n, rng, {"cond": 10.0 ** draw(st.floats(0, 1.4))})
         fam = "svd_full"
     else:
-        fam = draw(st.sampled_from(["gauss", "conflict", "gauss", "grid"]))
+        fam = draw(st.sampled_from(["gauss", "conflict", "gauss", "grid", "orthoblock", "orthoblock"]))
         J = rng.integers(-4, 5, size=(m, n)) / 2.0 if fam == "grid" else build(fam, m, n, rng, {"eps": 1e-2, "delta": 1e-2})
     J = J * 10.0 ** draw(st.sampled_from([0, 0, -3, -2, 2, 3, -10, -7]))
     extra = draw(st.sampled_from([None, None, None, {"k": 600, "kind": "gauss"}]))
@@ -122,8 +122,9 @@ def run_case(case) -> Outcome:
     else:
         amp = 1.0
     if name == "PCGrad" and refs.pcgrad_margin(J, case["schedule"]) < rel.MARGIN[dtype] * 10:
-        out.excluded = "pcgrad-branch-tie"
-        return out
+        # a branch test g.g_j < 0 at (numerical) zero: PCGrad is continuous there (the correction vanishes with the
+        # inner product), so the relation is still checked - only recorded as a class
+        out.cls("pcgrad-branch-tie")
 
     rungs = [None]
     if name == "UPGrad":
